@@ -46,23 +46,39 @@ Inductive wop :=
 | XferBA (id : N)        (* A.transfer_from(B, [ref], transfer="copy") *)
 | XferAB (id : N).
 
-(* Butler.transfer_from between datastores of different kinds (Datastore.transfer_from / FileDatastore /
-   ChainedDatastore): a file datastore accepts only a file datastore as source, an in-memory datastore accepts
-   nothing, a chained datastore accepts a file or a chained source (its file member receives the artifacts); any
-   other pair is refused with TypeError before anything is touched -- except that a chained target notices an
-   in-memory source only when that source actually holds the dataset (otherwise nothing is left to transfer). *)
-Definition xfer_refused (dst src : kind) (src_holds_mem : bool) : bool :=
+(* Butler.transfer_from between datastores of different kinds (Butler.transfer_from, Datastore.transfer_from,
+   FileDatastore / ChainedDatastore): a file datastore accepts only a file datastore as source, an in-memory
+   datastore accepts nothing, a chained datastore accepts a file or a chained source (its file member receives the
+   artifacts).  For any other pair: datasets the source does not hold are dropped first (skip_missing); what is
+   left is imported into the registry (a conflicting identity is refused with Conflict); then the datastore refuses
+   with TypeError -- a chained target only if something is left to transfer -- and everything is rolled back. *)
+Definition xfer_compat (dst src : kind) : bool :=
   match dst, src with
-  | KFile, KFile | KChained, KFile | KChained, KChained => false
-  | KChained, KMem => src_holds_mem
-  | KMem, KMem => false                      (* Model/Datastore.v: NotImplementedError *)
-  | _, _ => true
+  | KFile, KFile | KChained, KFile | KChained, KChained => true
+  | KMem, KMem => true                       (* Model/Datastore.v: NotImplementedError *)
+  | _, _ => false
   end.
 
+Definition src_holds (cs : cfg) (src : cstate) (id : N) : bool :=
+  match c_kind cs with
+  | KFile => stored_file cobj cbytes src id
+  | KMem => has_mem cobj cbytes src id
+  | KChained => has_mem cobj cbytes src id || stored_file cobj cbytes src id
+  end.
+
+(* outcome of a transfer between an incompatible pair; the target state never changes *)
+Definition xfer_refusal (cd cs : cfg) (dst src : cstate) (id : N) : outcome :=
+  if src_holds cs src id
+  then match aget N.eqb (reg src) id with
+       | Some i => match import_reg (reg dst) id i with None => Refused Conflict | Some _ => Refused TypeErr end
+       | None => Refused TypeErr
+       end
+  else match c_kind cd with KChained => Done | _ => Refused TypeErr end.
+
 Definition xfer tbl (cd cs : cfg) (dst src : cstate) (id : N) : cstate * outcome :=
-  if xfer_refused (c_kind cd) (c_kind cs) (has_mem cobj cbytes src id)
-  then (dst, Refused TypeErr)
-  else cstep tbl cd dst (Transfer cobj cbytes src id).
+  if xfer_compat (c_kind cd) (c_kind cs)
+  then cstep tbl cd dst (Transfer cobj cbytes src id)
+  else (dst, xfer_refusal cd cs dst src id).
 
 Definition wstep tbl (ca cb : cfg) (w : cstate * cstate) (x : wop) : (cstate * cstate) * outcome :=
   let (a, b) := w in
